@@ -102,11 +102,18 @@ class Case:
     exprs[1] must be the same colour (grass's own `==` and identical compressed spelling) — the direct
     oracle; `expect` optionally fixes the expected compressed-output channels from reference data."""
 
-    def __init__(self, exprs, law=None, expect=None, group=""):
+    def __init__(self, exprs, law=None, expect=None, group="", extra=()):
         self.exprs = list(exprs)
         self.law = law
         self.expect = expect
         self.group = group
+        # direct-only observations: (sass source, text grass must print in both styles).  Used for
+        # index()/map-get(), which apply grass's `==` to colours inside lists and maps.
+        self.extra = list(extra)
+        # when set, exprs are red(c), green(c), blue(c), alpha(c) of one colour: the Lean range predicate is
+        # evaluated on these four numbers as grass prints them (printing a colour saturates its channels,
+        # the accessors do not)
+        self.accessor_range = False
         if law:
             self.exprs.append(call("eq", exprs[0], exprs[1]))
 
@@ -245,6 +252,10 @@ def function_cases(rng, n_each):
         if canon:
             # integrality of the stored channels / canonical re-spelling, judged by grass's own `==`
             out.append(Case([accessors_roundtrip(e, "rgba"), e], law="canon", group="canon"))
+            if rng.random() < 0.4:
+                k = Case([call(a, e) for a in ("red", "green", "blue", "alpha")], group="accessor-range")
+                k.accessor_range = True
+                out.append(k)
 
     for _ in range(n_each):
         c = rand_color(rng)
@@ -256,16 +267,16 @@ def function_cases(rng, n_each):
         args = [rng.choice([ch, ch, pc])() for _ in range(3)]
         if rng.random() < 0.5:
             args.append(rng.choice([num(rng.choice(UNIT_AMOUNTS)), pc()]))
-        add(call("rgb", *args, alias=rng.choice(["rgb", "rgba"])), canon=False)
+        add(call("rgb", *args, alias=rng.choice(["rgb", "rgba"])))
         args = [num(rng.choice(DEGREES), rng.choice(["", "deg"])), num(rng.choice(AMOUNTS), "pct"), num(rng.choice(AMOUNTS), "pct")]
         if rng.random() < 0.5:
             args.append(rng.choice([num(rng.choice(UNIT_AMOUNTS)), pc()]))
-        add(call("hsl", *args, alias=rng.choice(["hsl", "hsla"])), canon=False)
+        add(call("hsl", *args, alias=rng.choice(["hsl", "hsla"])))
         args = [num(rng.choice(DEGREES), rng.choice(["", "deg"])), num(rng.choice(AMOUNTS), "pct"), num(rng.choice(AMOUNTS), "pct")]
         if rng.random() < 0.5:
             args.append(rng.choice([num(rng.choice(UNIT_AMOUNTS)), pc()]))
-        add(call("hwb", *args), canon=False)
-        add(call("rgb", c, num(rng.choice(UNIT_AMOUNTS)), alias="rgba"), canon=False)
+        add(call("hwb", *args))
+        add(call("rgb", c, num(rng.choice(UNIT_AMOUNTS)), alias="rgba"))
         # accessors
         for acc in ("red", "green", "blue", "alpha", "hue", "saturation", "lightness", "whiteness", "blackness"):
             if rng.random() < 0.35:
@@ -319,6 +330,93 @@ def function_cases(rng, n_each):
             order = ["red", "green", "blue", "alpha", "hue", "saturation", "lightness", "whiteness", "blackness"]
             kw.sort(key=lambda p: order.index(p[0]))
             add(call(upd, c, kw=kw))
+    return out
+
+
+REF_BY_RGB = {}
+for _n, (_r, _g, _b, _a) in sorted(REF.items()):
+    if _a == 255:
+        REF_BY_RGB.setdefault((_r, _g, _b), []).append(_n)
+
+FRACTIONAL = ["127.6", "127.4", "127.5", "127.49999999999", "127.50000000001", "0.4", "0.6", "254.6", "200.25", "33.3", "1.5"]
+PERCENTS = ["50", "50.2", "33.3", "0.1", "0.3", "99.9", "25.1", "66.6667", "12.5", "100", "0"]
+
+
+def fractional_constructor(rng):
+    """A constructor call whose channels are (mostly) not integers before grass rounds them."""
+    k = rng.random()
+    if k < 0.55:
+        ch = lambda: (num(rng.choice(PERCENTS), "pct") if rng.random() < 0.55 else num(rng.choice(FRACTIONAL)))
+        args = [ch(), ch(), ch()]
+        if rng.random() < 0.3:
+            args.append(num(rng.choice(["1", "0.5", "0.25", "100%"]).rstrip("%"), "pct" if rng.random() < 0 else ""))
+        return call("rgb", *args, alias=rng.choice(["rgb", "rgba"]))
+    dec = lambda lo, hi: f"{rng.uniform(lo, hi):.3f}"
+    if k < 0.8:
+        args = [num(dec(0, 360), rng.choice(["", "deg"])), num(dec(0, 100), "pct"), num(dec(0, 100), "pct")]
+        if rng.random() < 0.3:
+            args.append(num(rng.choice(["1", "0.5", "0.25"])))
+        return call("hsl", *args, alias=rng.choice(["hsl", "hsla"]))
+    w = rng.uniform(0, 100)
+    args = [num(dec(0, 360), rng.choice(["", "deg"])), num(f"{w:.3f}", "pct"), num(dec(0, 100 - w), "pct")]
+    if rng.random() < 0.3:
+        args.append(num(rng.choice(["1", "0.5", "0.25"])))
+    return call("hwb", *args)
+
+
+SPELLING_CORPUS = [
+    # seeded C15-m2: rgb() stored unrounded channels, so these compared unequal although they print alike
+    call("rgb", num("50", "pct"), num("0", "pct"), num("0", "pct")),
+    call("rgb", num("127.6"), num("0"), num("0")),
+    call("rgb", num("50.2", "pct"), num("33.3", "pct"), num("0.1", "pct"), num("0.5"), alias="rgba"),
+    call("hsl", num("0"), num("100", "pct"), num("25.1", "pct")),
+]
+
+
+def spelling_cases(rng, n):
+    """Every constructed colour must be the same colour as each other spelling of its rounded channels:
+    `==` in both operand orders, index() in a list, map-get() as key and as lookup value — all computed
+    by grass.  The other spellings are built from grass-independent data: the channels the model
+    computes (hex, integer rgb(), CSS name from the reference table) — skipped when the model marks
+    the rounding f64-sensitive — and always `rgb(red(c), green(c), blue(c), alpha(c))`."""
+    ctors = list(SPELLING_CORPUS) + [fractional_constructor(rng) for _ in range(n)]
+    model = driver_par(["color eval " + " ".join(to_tokens(e)) for e in ctors])
+    out = []
+    far = hx("010203")
+    for c, m in zip(ctors, model):
+        if not m.startswith("ok color"):
+            continue
+        p = m.split(" ")
+        r, g, b, a = (F(x) for x in p[2:6])
+        risky = m.endswith(" risky")
+        if risky and c[1] == "rgb" and all(x[0] == "num" for x in c[2]):
+            # rgb() with literal channels: an exact X.5 (50% = 127.5) is exact in f64 as well and rounds up on
+            # both sides; only values *near* X.5 without being it are f64-sensitive
+            def safe(arg):
+                v = frac(arg[1]) * (F(255, 100) if arg[2] == "pct" else 1)
+                d = abs(v - (v.numerator // v.denominator) - F(1, 2))
+                return d == 0 or d > F(1, 10 ** 6)
+            risky = not all(safe(x) for x in c[2][:3])
+        others = [("accessors", accessors_roundtrip(c, "rgba")), ("accessors3", accessors_roundtrip(c, "rgb") if a == 1 else None)]
+        if not risky and all(x.denominator == 1 for x in (r, g, b)):
+            ri, gi, bi = int(r), int(g), int(b)
+            if a == 1:
+                others.append(("hex", hx(hex6(ri, gi, bi))))
+                others.append(("int_rgb", call("rgb", num(ri), num(gi), num(bi))))
+                for nm in REF_BY_RGB.get((ri, gi, bi), [])[:1]:
+                    others.append(("name", name(nm)))
+            else:
+                others.append(("int_rgba", call("rgb", num(ri), num(gi), num(bi), num(f"{a.numerator}/{a.denominator}"), alias="rgba")))
+        for tag, o in others:
+            if o is None:
+                continue
+            cs, os_ = to_sass(c), to_sass(o)
+            extra = [(f"inspect(index(({to_sass(far)}, {os_}), {cs}))", "2"),
+                     (f"inspect(index(({cs}, {to_sass(far)}), {os_}))", "1"),
+                     (f"inspect(map-get(({os_}: 1), {cs}))", "1"),
+                     (f"inspect(map-get(({cs}: 1), {os_}))", "1")]
+            out.append(Case([c, o], law="constructed_eq_" + tag, group="spelling", extra=extra))
+            out.append(Case([o, c], law="constructed_eq_" + tag + "_swapped", group="spelling"))
     return out
 
 
@@ -634,7 +732,14 @@ def evaluate(ck, cases, pool, direct_only=False):
                 same_req.append("color same " + " ".join(f"{x.numerator}/{x.denominator}" for x in p1 + p2))
                 same_idx.append(ci)
     same_ans = dict(zip(same_idx, driver_par(same_req))) if same_req else {}
+    extras = [(ci, src, want) for ci, c in enumerate(cases) for src, want in c.extra]
+    extra_res = {}
+    if extras:
+        got = run_impl(pool, [e[1] for e in extras], ["ok direct"] * len(extras))
+        for (ci, src, want), ob in zip(extras, got):
+            extra_res.setdefault(ci, []).append((src, want, ob))
     failing = []
+    acc_req = []
     first = {}
     for i, (ci, k) in enumerate(owner):
         first.setdefault(ci, i)
@@ -688,6 +793,17 @@ def evaluate(ck, cases, pool, direct_only=False):
                 problems.append(f"Lean sameColor on grass's printed colours {obs[0][1]} / {obs[1][1]}: {same_ans.get(ci)}")
         elif c.law and not any(m.startswith("err") for m in mods):
             problems.append(f"law {c.law} could not be evaluated on grass: {[str(o)[:80] for o in obs]}")
+        if c.accessor_range and all(o[0] == "val" for o in obs):
+            nums = [parse_number(o[1]) for o in obs]
+            if any(n is None or n[1] != "" for n in nums):
+                problems.append(f"accessors of {to_sass(c.exprs[0][2][0])} print {[o[1] for o in obs]}: not plain numbers")
+            else:
+                acc_req.append((ci, "color inrange " + " ".join(f"{n[0].numerator}/{n[0].denominator}" for n in nums)))
+        for src, want, ob in extra_res.get(ci, []):
+            ck.cov["evaluations"] += 1
+            ck.hist("direct:index/map-get")
+            if ob[0] != "val" or ob[1] != want or ob[2] != want:
+                problems.append(f"grass evaluates {src} to {ob[1:3] if ob[0] == 'val' else ob} (expected {want}: the two colours are the same colour)")
         if c.expect:
             n, (r, g, b, a) = c.expect
             for ob in obs:
@@ -697,6 +813,15 @@ def evaluate(ck, cases, pool, direct_only=False):
         if problems:
             failing.append({"source": c.text(), "law": c.law, "group": c.group, "problems": problems[:4],
                             "impl_observation": [str(o)[:100] for o in obs], "tags": []})
+    if acc_req:
+        for (ci, req), ans in zip(acc_req, driver_par([r for _, r in acc_req])):
+            ck.hist("direct:accessor-range")
+            if ans != "ok 1":
+                c = cases[ci]
+                failing.append({"source": c.text(), "law": "accessor_range", "group": c.group, "tags": [],
+                                "problems": [f"red/green/blue/alpha accessors of {to_sass(c.exprs[0][2][0])} are "
+                                             f"{req.split(' ', 2)[2]}: not integer channels in [0,255] with alpha in [0,1] ({ans})"],
+                                "impl_observation": []})
     return failing
 
 
@@ -763,7 +888,9 @@ def run(tier, seed):
         "every CSS named colour (reference table) in 3 spellings and 5-6 laws each; all 4096 short-hex colours x {#rgb==#rrggbb, "
         "rgb->hsl->rgb and rgb->hwb->rgb through grass's accessors} (+ 4/8-digit forms); random colours drawn from a 9-point "
         "lattice per channel and uniformly, written as hex/name/rgb()/rgba()/hsl()/hwb(), through every colour function with "
-        "arguments in, on and slightly outside their legal ranges; ~35 laws of the property per random colour; whole red-planes "
+        "arguments in, on and slightly outside their legal ranges; ~35 laws of the property per random colour; constructor calls "
+        "with non-integer channel results (percent / decimal rgb(), random hsl()/hwb()) compared by grass's `==` in both "
+        "operand orders, index() and map-get() against hex / name / integer-rgb() / accessor re-spellings; whole red-planes "
         "of the 2^24 cube evaluated by grass itself (thorough: all 256). A case is distinct by its Sass text and non-trivial "
         "when it applies a function/conversion or compares two spellings.")
     ck.assumptions = [
@@ -788,17 +915,18 @@ def run(tier, seed):
     cases = corpus_cases() + named_cases(rng) + short_hex_cases(rng, tier)
     cases += function_cases(rng, 120 if quick else 2500)
     cases += law_cases(rng, 150 if quick else 3000)
+    cases += spelling_cases(rng, 250 if quick else 4000)
     enlarge = quick and bool(getattr(ck, "changed", None))
     if enlarge:
         # the modelled Rust files differ from the snapshot the model was validated against: search wider
         log(f"[C15] modelled sources changed ({ck.changed}): enlarging the search")
-        cases += law_cases(rng, 450) + function_cases(rng, 250)
+        cases += law_cases(rng, 450) + function_cases(rng, 250) + spelling_cases(rng, 800)
     failing = evaluate(ck, cases, pool)
     planes = rng.sample(range(256), 40 if enlarge else 6) + [0, 255] if quick else range(256)
     failing += run_cube(ck, pool, set(planes), 1 if quick else 4)
     if (not ck.proof["ok"] or ck.cov["model_disagreements"]) and not failing and quick:
         log("[C15] proof or correspondence broken: enlarging the search")
-        extra = law_cases(rng, 1500) + function_cases(rng, 600)
+        extra = law_cases(rng, 1500) + function_cases(rng, 600) + spelling_cases(rng, 1500)
         failing += evaluate(ck, extra, pool, direct_only=True)
         failing += run_cube(ck, pool, set(rng.sample(range(256), 48)), 4)
     failing.sort(key=lambda f: len(f["source"]))
